@@ -49,6 +49,7 @@ theorem Pdu.trimFront_len (p : Pdu) (ct : Nat) : (p.trimFront ct).len = p.len - 
   omega
 
 theorem Pdu.bytes_length (p : Pdu) (h : p.start + p.len ≤ p.frame.length) : p.bytes.length = p.len := by
+  have := h
   simp [Pdu.bytes]; omega
 
 /-- `trim_front` on the view is `drop` on the bytes (this is what the fix of `trim_front` established). -/
